@@ -10,7 +10,7 @@
    run_raster rest : bytes requested by sixel raster attributes *)
 From Coq Require Import ZArith NArith List Bool.
 From IE Require Import Model.TermCore Model.AnsiTok Model.Cost Model.Alloc.
-From IE Require Model.Font.
+From IE Require Model.Font Model.Sixel Model.SixelCost.
 Import ListNotations.
 Local Open Scope Z_scope.
 
@@ -155,4 +155,23 @@ Definition run_state (w h : Z) (a b : list Z) : list Z :=
     | inr l => l
     end
   | inr l => l
+  end.
+
+(* ---- extension (d): the sixel decoder with counters.  run_sixel_cost payload (the decoder appends '#', as parse_from does) ->
+     cls (0 Ok, 1 Err, 2 Panic)  iterations  executed_repeat_counts  declared_width declared_height  rows  longest_row  bytes_of_the_padded_image  cap
+   cap = the bound of sixel_image_bound; harness kind `c03sixel`: ok width height bytes *)
+Definition hsl0 (_ _ _ : Z) : Sixel.rgb := (0, 0, 0)%N.
+Definition pal16 : list Sixel.rgb := repeat (0, 0, 0)%N 16.
+Definition run_sixel_cost (payload : list Z) : list Z :=
+  let cs := payload ++ [35] in
+  let s0 := Sixel.init_state pal16 1 1 in
+  let r := SixelCost.parse_chars_t hsl0 s0 cs 0 in
+  let T := SixelCost.zlenN cs + SixelCost.rep_sum hsl0 s0 cs in
+  let d := SixelCost.decl_max hsl0 s0 cs in
+  let cap := Z.max (6 * T + 6) (snd d) * (4 * Z.max T (fst d)) in
+  match fst r with
+  | Sixel.Ok s' => [0; snd r; SixelCost.rep_sum hsl0 s0 cs; fst d; snd d; Sixel.height (Sixel.rows s'); SixelCost.mxl (Sixel.rows s');
+                    Sixel.height (Sixel.rows s') * SixelCost.mxl (Sixel.rows s'); cap]
+  | Sixel.Err c => [1; snd r; c]
+  | Sixel.Panic c => [2; snd r; c]
   end.
